@@ -148,3 +148,18 @@ def gen_storage(items):
             raise Fail(f'{f}::remove_empty_segments no longer removes the committed segments with num_docs() == 0')
         return DL('COMMITTED_METAS_CALLS', codes, 'segment_manager.rs::committed_segment_metas in source order: 1 remove_empty_segments() (drops committed entries with num_docs() == 0), 2 list the committed metas')
     items.append(committed_metas)
+
+    def managed_open_write():
+        f = 'src/directory/managed_directory.rs'
+        codes = ordered_codes(f, 'open_write', [
+            (1, r'self\.register_file_as_managed\(path\)'),
+            (2, r'\.open_write\(path\)'),
+        ], 'ManagedDirectory::open_write')
+        reg = ordered_codes(f, 'register_file_as_managed', [
+            (1, r'managed_paths\.insert\('),
+            (2, r'save_managed_paths\('),
+        ], 'register_file_as_managed')
+        if reg != [1, 2]:
+            raise Fail(f'{f}::register_file_as_managed no longer inserts the path before persisting the list')
+        return DL('MANAGED_OPEN_WRITE_STEPS', codes, 'managed_directory.rs::open_write in source order: 1 register_file_as_managed (insert + save_managed_paths), 2 create the file in the wrapped directory')
+    items.append(managed_open_write)
